@@ -121,5 +121,32 @@ func TestSweep(t *testing.T) {
 			Oracle.One(t, env, rec, "sweep", &Case{S: pr[0], B: pr[1], C: C, Kr: 3, A: 0, Bf: 2, Ops: []Op{{Kind: "write", N: 2*C - 1, Vals: vals}, {Kind: "read", N: 2*C + 1}}})
 		}
 	}
+	// thousands of frames, several calls on one window: striped reads with a nil or empty member where an
+	// earlier read had a full one, with the content rewritten in between; the slices of the earlier calls
+	// are re-checked after every later call
+	vals2 := []kit.Val{kit.IV(9), kit.IV(33), kit.IV(2)}
+	for i, pr := range [][2]string{{"float32", "float32"}, {"int16", "int16"}, {"float64", "int32"}, {"int32", "float64"}} {
+		C := 2 + i%2
+		fr := 4097 + 911*i
+		full, holes, short := make([]int, C), make([]int, C), make([]int, C)
+		for ch := range full {
+			full[ch], holes[ch], short[ch] = fr, fr, fr
+		}
+		holes[1], short[C-1] = -1, 0
+		Oracle.One(t, env, rec, "sweep", &Case{S: pr[0], B: pr[1], C: C, Kr: fr + 1, A: 0, Bf: fr, Fix: i % 3, Ops: []Op{
+			{Kind: "writeStriped", Lens: full, Vals: vals}, {Kind: "readStriped", Lens: full}, {Kind: "write", N: C * fr, Vals: vals2},
+			{Kind: "readStriped", Lens: holes}, {Kind: "readStriped", Lens: short}, {Kind: "read", N: C*fr - 1}}})
+	}
+	// input channels that share caller storage: one signal fanned out (same start, uneven lengths) and pieces of one flat array
+	for _, pr := range [][2]string{{"float64", "float64"}, {"int16", "float32"}, {"int8", "int8"}} {
+		for C := 2; C <= 4; C++ {
+			for share := 1; share <= 2; share++ {
+				for _, lens := range [][]int{{4, 2, 4, 3}, {2, 4, -1, 4}, {4, 4, 4, 4}, {1, 0, 4, 2}} {
+					Oracle.One(t, env, rec, "sweep", &Case{S: pr[0], B: pr[1], C: C, Kr: 5, A: 0, Bf: 4, Ops: []Op{
+						{Kind: "writeStriped", Lens: lens[:C], Vals: []kit.Val{kit.IV(1), kit.IV(2), kit.IV(3), kit.IV(4), kit.IV(5)}, Share: share}, {Kind: "read", N: 4 * C}}})
+				}
+			}
+		}
+	}
 	rec.Exhaustive("169 pairs x C<=3 x root<=3(4) frames x all windows x {write,read,writeStriped,readStriped} x lengths {0,n-1,n,n+1}", true)
 }
